@@ -42,7 +42,7 @@ def run(run):
     run.rule("R4", "all blocks / all return sites / whole worklist visited; build order; add_block only on a lookup miss")
 
     gb_fns = {f["name"]: f for f in F.fns if f.get("impl_adt", "").endswith("analysis::graph::GraphBuilder") and f["dk"] != "Closure"}
-    run.floor("GraphBuilder methods", len(gb_fns), 12)
+    run.floor("GraphBuilder methods", len(gb_fns), 6)
 
     def direct_edges(fn):
         return [n for n in T.walk_fn(F, fn) if n.get("k") == "Adt" and n["adt"].endswith("analysis::graph::Edge")] + \
@@ -188,7 +188,7 @@ def run(run):
                         root = f.get("root") or f["path"]
                         if "GraphBuilder" not in root and "GraphBuilder" not in f.get("impl_self", ""):
                             outside.append("%s (%s)" % (root, F.loc(c)))
-        run.floor("CFG construction calls", n, 10)
+        run.floor("CFG construction calls", n, 5)
         # parallel edges are legitimate (a conditional jump and its fall-through may target the same block, an indirect
         # jump may list a target twice): edges must be added with add_edge, never merged with update_edge
         merged = []
